@@ -253,6 +253,14 @@ class KBEval:
                 return self.ev(n['e']).neg()
             if op == '+':
                 return self.ev(n['e'])
+            if op == '!':
+                v_ = self.ev(n['e'])
+                w_ = (type_info(n.get('ty')) or (1, False))[0]
+                if v_.ones:
+                    return KB.const(w_, 0)
+                if v_.value() is not None:
+                    return KB.const(w_, int(v_.value() == 0))
+                return KB(w_, ((1 << w_) - 1) & ~1, 0)
             raise AnalysisBroken('known-bits: unsupported unary %s' % op)
         if k == 'Bin':
             op = n['op']
